@@ -142,7 +142,10 @@ func expectedDisplay(format string, t *gTable) []dispNode {
 				dn := last(e.Dst)
 				d := dispEdge{Name: dn.PrintableName(), W: e.Wt.V, Residual: e.Residual}
 				if format == "dot" && !listed(e.Dst) {
-					d.Name = unlistedName
+					// an edge to an entry that is not listed (all figures zero) has no declared DOT node
+					// to point to: ComposeDot skips it (fix 1120e19; it used to print "-> N0"). An edge
+					// to an undeclared node in the output parses as unlistedName and matches nothing.
+					continue
 				}
 				if format == "callgrind" {
 					ci := last(e.Dst)
@@ -224,9 +227,11 @@ func checkDisplay(c *Ctx, format string, out []byte, want *gTable, frames *leanF
 		return "entry", d
 	}
 	if format == "dot" {
-		for _, e := range pr.DotEdges {
-			if e.To == 0 || e.From == 0 {
-				c.Res.Hit("dot-edge-to-unlisted-zero-entry")
+		for _, e := range want.Edges {
+			_, a := want.Flat[e.Src]
+			_, b := want.Flat[e.Dst]
+			if a && !b {
+				c.Res.Hit("dot:edge-to-unlisted-zero-entry-omitted")
 				break
 			}
 		}
@@ -790,6 +795,17 @@ func runC04(c *Ctx) {
 				st = "deep"
 			}
 			p := genC04Profile(rt, &c04GenOpts{Strategy: st, Labels: true})
+			if i%2 == 1 {
+				// sparse ids: the pseudo locations / functions must be numbered above the LARGEST id in
+				// use, not above the count (graph.CreateNodes keys its location table by Location.ID)
+				for _, l := range p.Location {
+					l.ID = l.ID*2 + 1
+				}
+				for _, f := range p.Function {
+					f.ID = f.ID * 3
+				}
+				c.Res.Hit("tagstream:sparse-ids")
+			}
 			cs := &c04Case{Level: "cli", Profile: Canon(p), Format: tagFormats[i%len(tagFormats)],
 				Gran: rt.Pick([]string{"", "functions", "filefunctions", "files", "lines"}), NoInlines: rt.Chance(25),
 				Req: gReq{CallTree: rt.Chance(30), Mean: rt.Chance(20)}}
